@@ -495,6 +495,12 @@ class VBatch(BatchBase):
         run.emit("Prio", b=self.bid, xs=[base, n, tb])
         return p
 
+    def flush(self):
+        # mode "throw": the flush completes, then flush() itself raises (a failing flush as the scheduler sees it)
+        BatchBase.flush(self)
+        if self.run.prog["kinds"][self.kind - 1].get("flush") == "throw":
+            raise self.run.new_err(31000 + self.kind)
+
     def _flush(self):
         run = self.run
         by = 1 if (run.in_sched_flush and run.in_sched_flush[-1] == self.bid) else 0
@@ -502,7 +508,7 @@ class VBatch(BatchBase):
         run.emit("FlushBegin", b=self.bid, a=by, xs=[i.fid for i in items])
         mode = run.prog["kinds"][self.kind - 1].get("flush", "ok")
         try:
-            if mode == "ok":
+            if mode in ("ok", "throw"):
                 for it in items:
                     it.set_value(IV(it.fid))
             elif mode == "itemerr":
